@@ -652,6 +652,103 @@ def invalid_ke_sweep(ck, rng, ci, where, g):
         ck.violation(f'loop-died-on-invalid-ke-payload:{where}', {'exc': repr(died[0].exc), 'suggested': g}, sim.case)
 
 
+def peer_child_requests(ck, rng, i):
+    """An independent peer (vf/ref/peer.py) is the exchange initiator of CREATE_CHILD_SA: it creates a CHILD_SA with one offer and then REKEYS it, twice, each time
+    with ANOTHER offer (a third-party implementation rotating its proposals, or a peer whose policy was reloaded). Every answer of the real endpoint is the reference
+    selection over ITS written preference order and the offer of THAT request: what the replaced SA uses plays no part; NO_PROPOSAL_CHOSEN iff nothing is common."""
+    from vf.ref import peer as refpeer, groups
+    proto = 2 if i % 6 == 5 else 3
+    pick = lambda u: rng.sample(u, rng.randrange(1, len(u) + 1))
+    ch = {'encr': pick(['aes128', 'aes256']), 'integ': pick(['sha1', 'sha256', 'sha512']), 'dh': [rng.choice(['19', '14'])] if i % 3 == 0 else []}
+    kw = dict(child_a=ch, child_b=ch, ipsec_proto='ah' if proto == 2 else 'esp')
+    sim, a, b = S.make_pair(ck.seed * 31 + i, **kw)
+    sim.case = {'family': 'peer-child-requests', 'conf': kw}
+    pr = refpeer.Peer(S.B4, S.A4, rng, c02.ID_B, c02.PSK_B, quirks=bool(i % 2))
+    if not pr.establish(sim, a) or not c02.established(a):
+        ck.count('peer_child.setup_failed')
+        return
+    inner = pr.auth_inner
+    ts_a = next(x for x in inner if x['type'] == codec.TSI)['selectors'][-1]
+    ts_p = next(x for x in inner if x['type'] == codec.TSR)['selectors'][-1]
+    transport = any(x['type'] == codec.NOTIFY and x.get('ntype') == 16391 for x in inner)
+    my = {'proto': proto, 'transforms': child_list(ch, proto, True)}
+    universe = ([(1, 12, 128), (1, 12, 256), (1, 3, None)] if proto == 3 else []) + [(3, 2, None), (3, 12, None), (3, 14, None), (3, 5, None)]
+
+    def offer():
+        if rng.random() < 0.7:
+            # around the local policy: every local transform listed with probability 3/4, foreign ones mixed in, any order
+            trs = [t for t in my['transforms'] if t[0] in (1, 3) and rng.random() < 0.75] + [t for t in universe if rng.random() < 0.3]
+        else:
+            trs = [t for t in universe if rng.random() < 0.5]
+        trs = list(dict.fromkeys(trs))
+        rng.shuffle(trs)
+        ke = None
+        if ch['dh'] and rng.random() < 0.85:
+            g = int(ch['dh'][0]) if rng.random() < 0.8 else 20
+            trs.append((4, g, None))
+            ke = (g, groups.dh_public(g, rng.getrandbits(200) | 1))
+        trs.append((5, 0, None))
+        return trs, ke
+
+    def ask(rekey_of, tsi, tsr, label):
+        trs, ke = offer()
+        mid, spi = pr.create_child(sim, a, proto, [{'type': t, 'id': d, 'keylen': k} for (t, d, k) in trs], tsi, tsr, transport, rekey_of=rekey_of, ke=ke)
+        pr.serve(sim, a)
+        res = pr.responses.get(mid)
+        if res is None:
+            ck.count('peer_child.not_answered')
+            return None
+        want = negotiate.select(my, {'proto': proto, 'transforms': trs})
+        sa = next((x for x in res if x['type'] == codec.SA and x.get('proposals')), None)
+        nts = [x['ntype'] for x in res if x['type'] == codec.NOTIFY]
+        ck.count(f'peer_child.{label}.answers')
+        ck.nontrivial(('peer-child', i, label, want is not None))
+        det = {'offer': trs, 'local_preference_order': my['transforms'], 'want': want and list(want.values()), 'request': label,
+               'replaced_sa_uses': rekey_of.get('suite') if rekey_of else None}
+        if sa is not None:
+            got = [(t['type'], t['id'], t['keylen']) for t in sa['proposals'][0]['transforms']]
+            det['got'] = got
+            if want is None:
+                ck.violation(f'responder-chose-a-child-suite-although-none-is-common:{label}', det, sim.case)
+            elif sorted(got, key=str) != sorted(want.values(), key=str):
+                ck.violation(f'responder-child-suite-differs-from-reference-selection:{label}', det, sim.case)
+            else:
+                ck.count(f'peer_child.{label}.selection_agrees')
+                if rekey_of is not None and sorted(got, key=str) != sorted(rekey_of.get('suite') or [], key=str):
+                    ck.count('peer_child.rekeys_that_moved_to_another_suite')
+            child = {'my_spi': spi, 'peer_spi': sa['proposals'][0]['spi'], 'proto': proto, 'suite': got,
+                     'tsi': next(x for x in res if x['type'] == codec.TSI)['selectors'], 'tsr': next(x for x in res if x['type'] == codec.TSR)['selectors']}
+            pr.children.append(child)
+            return child
+        if 14 in nts:
+            ck.count(f'peer_child.{label}.no_proposal_chosen')
+            if want is not None:
+                ck.violation(f'no-proposal-chosen-although-a-common-child-suite-exists:{label}', det, sim.case)
+        else:
+            ck.count(f'peer_child.{label}.other_refusal')
+            ck.seen('peer_child.other_refusals', tuple(nts))
+        return None
+
+    cur = None
+    for _try in range(4):
+        cur = ask(None, [ts_p], [ts_a], 'new-child')
+        if cur is not None:
+            break
+    for r in range(3):
+        if cur is None:
+            break
+        nxt = None
+        for _try in range(3):
+            nxt = ask(cur, cur['tsi'], cur['tsr'], 'rekey-child')
+            if nxt is not None:
+                break
+        if nxt is None:
+            break
+        pr.delete_children(sim, a, [cur])
+        pr.serve(sim, a)
+        cur = nxt
+
+
 def run(ck):
     rng = ck.rng('c11', ck.shard[0])
     n = 5000
@@ -671,6 +768,9 @@ def run(ck):
     for i in range(48 if not ck.thorough() else 960):
         if ck.mine(i // 6):
             ke_group_aliases(ck, ck.rng('kealias', i), i)
+    for i in range(120 if not ck.thorough() else 6000):
+        if ck.mine(i // 4):
+            peer_child_requests(ck, ck.rng('peerchild', i), i)
     for rep in range(1 if not ck.thorough() else 40):
         for vi in range(44):
             if ck.mine(vi + rep):
@@ -699,6 +799,9 @@ def verdict(ck):
     ck.floor('IKE_SA rekey selections compared', c['e2e.ike_rekey_selection_compared'], 150)
     ck.floor('INVALID_KE_PAYLOAD replies seen', c['e2e.invalid_ke_seen'] + c['e2e.child_invalid_ke'], 20)
     ck.floor('NO_PROPOSAL_CHOSEN outcomes seen', c['e2e.no_proposal_chosen_seen'] + c['e2e.child_no_proposal_chosen'], 10)
+    ck.floor('CHILD_SA rekey requests of an independent peer whose offer differs from the one that created the SA: selections agreeing', c['peer_child.rekey-child.selection_agrees'], 60)
+    ck.floor('... of which the replacement uses another suite than the replaced SA', c['peer_child.rekeys_that_moved_to_another_suite'], 15)
+    ck.floor('... refused with NO_PROPOSAL_CHOSEN because nothing was common', c['peer_child.rekey-child.no_proposal_chosen'] + c['peer_child.new-child.no_proposal_chosen'], 15)
     ck.floor('tampered-response variants', len(ck.sets['tamper.labels']) + c['tamper.invalid_ke'], 34)
     ck.floor('initiator acceptances judged end to end', c['e2e.initiator_acceptance_judged'], 200)
     return None
